@@ -195,6 +195,18 @@ def r3_table(ctx, F):
     v = vf.VF(hc, inline_depth=0)
     n = len([c for c in live_calls(hc) if c.name == "clear"])
     ctx.check("R3-handle-table", "clear/both", n == 2, "HandleMap::clear clears %d of its 2 tables (handles, cookies)" % n, loc=hc.loc())
+    # the inode table's clear empties the store, and the store's clear empties each of its three maps
+    im = F.method("passthrough::InodeMap", "clear")
+    ctx.fn_seen(im)
+    iv = vf.VF(im, inline_depth=0)
+    t = [vf.render(iv.call_args(c)[0], im, short=True) for c in live_calls(im) if c.name == "clear"]
+    ctx.check("R3-handle-table", "clear/inode-map", len(t) == 1 and "self.inodes" in t[0], "InodeMap::clear clears %s, not the store behind self.inodes" % t, loc=im.loc())
+    st = F.method("passthrough::inode_store::InodeStore", "clear")
+    ctx.fn_seen(st)
+    sv = vf.VF(st, inline_depth=0)
+    t = sorted(vf.render(sv.call_args(c)[0], st, short=True) for c in live_calls(st) if c.name == "clear")
+    fields = sorted("self." + f["name"] for f in F.structs["passthrough::inode_store::InodeStore"]["fields"])
+    ctx.check("R3-handle-table", "clear/inode-store", t == fields, "InodeStore::clear clears %s; the store's maps are %s" % (t, fields), loc=st.loc())
     release_toggles(ctx, F, "R3-handle-table")
 
     # directory-position records exist only in opendir mode: where no RELEASEDIR ever arrives (runtime no_opendir, which is not the
